@@ -144,11 +144,65 @@ def _truthiness_sites(fn_node):
                     yield n, ("<elements>", g.iter), f"`{txt(n)[:60]}` keeps only the truthy elements"
 
 
+def run_identity(ctx, mods):
+    """Cnn.Z (second clause): VALUES are compared with == / !=, never with `is` / `is not`.  Identity agrees with equality only
+    for the objects CPython happens to share (ints from -5 to 256, interned literals): vertex ids above 256, strings built at run
+    time, numpy integers, equal tuples are equal but not identical.  Singletons (None, True, False, ...), classes and sentinel
+    objects are what `is` is for and are left alone; an operand of unknown kind is UNDECIDED."""
+    prog = ctx.prog
+    with ctx.obligation(f"{ctx.prop}.Z", "values are compared by equality, not by identity") as o:
+        n_sites = 0
+        for mi in mods:
+            for f in [x for x in prog.all_functions() if x.module is mi]:
+                eq_names = set()
+                idx_names = set()
+                for n in astx.walk_fn(f.node):
+                    if isinstance(n, ast.Compare) and any(isinstance(op, (ast.Eq, ast.NotEq, ast.Lt, ast.Gt, ast.LtE, ast.GtE)) for op in n.ops):
+                        eq_names |= {x.id for x in [n.left] + n.comparators if isinstance(x, ast.Name)}
+                    if isinstance(n, (ast.For, ast.comprehension)):
+                        idx_names |= astx.names_in(n.target)
+                for n in astx.walk_fn(f.node):
+                    if not (isinstance(n, ast.Compare) and len(n.ops) == 1 and isinstance(n.ops[0], (ast.Is, ast.IsNot))):
+                        continue
+                    a, b = n.left, n.comparators[0]
+                    def singleton(x):
+                        if isinstance(x, ast.Constant) and (x.value is None or x.value is True or x.value is False or x.value is Ellipsis):
+                            return True
+                        t = txt(x)
+                        return t in ("NotImplemented", "cls", "self.__class__") or t.startswith("type(") or t.split(".")[-1][:1].isupper() or t.split(".")[-1].startswith("_SENTINEL") \
+                            or t.split(".")[-1].isupper()
+                    if singleton(a) or singleton(b):
+                        continue
+                    n_sites += 1
+                    def valueish(x):
+                        if isinstance(x, ast.Constant) or isinstance(x, (ast.BinOp, ast.Tuple, ast.JoinedStr)):
+                            return True
+                        if isinstance(x, ast.Call) and txt(x.func) in ("len", "int", "str", "float", "sum", "abs", "min", "max", "tuple", "round"):
+                            return True
+                        if isinstance(x, ast.Name) and (x.id in eq_names or x.id in idx_names):
+                            return True         # compared by value elsewhere in the function / an index or element produced by a loop
+                        if isinstance(x, ast.Attribute) and x.attr.lstrip("_") in ("target_k", "m0", "phi", "n_samples", "iterations"):
+                            return True         # numeric configuration
+                        return False
+                    if valueish(a) or valueish(b):
+                        o.violated(f, n, f"`{txt(n)}` compares values by IDENTITY: equal ints above 256, strings built at run time, numpy integers or equal tuples are distinct objects, so the "
+                                         "test fails (or passes) where `==` / `!=` would not - the behaviour depends on how the value was produced, not on the value", shape_free=True)
+                    else:
+                        o.undecided(f"`{txt(n)}`: identity comparison of operands of unknown kind", f, n)
+        if not n_sites:
+            o.holds(None, None, "no identity comparison between non-singleton operands in the anchor files", construct="scan of is / is not")
+
+
 def run(ctx):
     prog = ctx.prog
     files = set(property_files(ctx.prop))
     if not files:
         return
+    try:
+        run_identity(ctx, _scope_modules(prog, files))
+    except Exception as e_:      # never let the second clause mask the first
+        with ctx.obligation(f"{ctx.prop}.Z", "values are compared by equality, not by identity") as o_:
+            o_.undecided(f"identity-comparison scan failed: {type(e_).__name__}: {e_}")
     with ctx.obligation(f"{ctx.prop}.Z", "no truthiness test on a value whose domain legitimately contains 0 (vertex 0, motif id 0, topology index 0, bound 0)") as o:
         mods = _scope_modules(prog, files)
         if not mods:
